@@ -126,6 +126,13 @@ Theorem C02_refuted_readmission_by_time :
 Proof. exact expansion_by_time_loses_committed. Qed.
 Print Assumptions C02_refuted_readmission_by_time.
 
+(* ... and these two are the only ways out: every history of the extended steps in which each
+   fallback is taken outside the in-sync set or with a current HW, and each re-admission is of a
+   replica that holds everything committed, keeps the invariant. *)
+Theorem C02_guarded_histories_keep_the_invariant : forall xs c, Inv c -> guarded c xs -> Inv (frun c xs).
+Proof. exact guarded_histories_keep_the_invariant. Qed.
+Print Assumptions C02_guarded_histories_keep_the_invariant.
+
 (* The pinned code, refuted twice. *)
 Theorem C02_refuted_epoch_boundary :
   let '(log, c) := crun false [CElect 4; CAppend [(4, 0); (4, 1); (4, 2)]; CTruncate 2; CAppend [(5, 10); (5, 11)]; CElect 6]%N in
